@@ -49,6 +49,7 @@ class Drive402:
         self.sw_reads = 0
         # a slow (still conformant) drive: a controlword takes effect `latency` seconds after it was received
         self.latency, self.clock, self.pending = latency, clock, []
+        self.deaf = False        # a drive that does not get the master's controlwords for a while (e.g. NMT pre-operational)
 
     def go(self, st):
         self.state = st
@@ -65,6 +66,9 @@ class Drive402:
         return SW_BITS[self.state] | self.extra
 
     def controlword(self, cw):
+        if self.deaf:
+            self.ignored = getattr(self, "ignored", 0) + 1
+            return
         if self.latency:
             self.cws.append(cw)
             self.pending.append((self.clock() + self.latency, cw))
